@@ -120,6 +120,7 @@ type dVariant struct {
 	// EmptyTok: the token that stands for the empty id inside to-many relationships ("" = none does)
 	EmptyTok string `json:"emptytok"`
 	Query    int    `json:"query"` // query string of the request URL
+	Wire     bool   `json:"wire"`  // include mode: the document is what UnmarshalDocument returned for the built one
 }
 
 type dCase struct {
